@@ -9,7 +9,8 @@ use serde_json::{json, Value};
 // ---------------------------------------------------------------------------------------------
 // configs
 pub fn marketing_sets() -> Vec<Vec<String>> {
-    vec![default_marketing(), vec!["ref".to_string(), "gclid".to_string()], vec![]]
+    // the last set holds names that the query encoder escapes (non-ASCII, space, plus)
+    vec![default_marketing(), vec!["ref".to_string(), "gclid".to_string()], vec![], vec!["utm_source".to_string(), "r\u{e9}f".to_string(), "ad id".to_string(), "c+".to_string()]]
 }
 
 pub fn config_strategy() -> BoxedStrategy<ConfigSpec> {
@@ -141,6 +142,10 @@ pub const INSTANTS: &[&str] = &[
     "2024-03-10T13:00:00Z",
     "2024-03-11T12:00:00Z",
     "2024-03-12T12:00:00Z",
+    // the same instants written with an offset (12:00:00Z on the 10th, twice, and on the 9th)
+    "2024-03-10T14:00:00+02:00",
+    "2024-03-10T07:00:00-05:00",
+    "2024-03-09T21:30:00+09:30",
 ];
 pub const REQ_INSTANTS: &[&str] = &[
     "2024-03-08T11:59:59Z",
@@ -162,6 +167,8 @@ pub const REQ_INSTANTS: &[&str] = &[
     "2024-03-12T11:59:59Z",
     "2024-03-12T12:00:00Z",
     "2024-03-13T18:00:00Z",
+    "2024-03-10T13:59:59+02:00",
+    "2024-03-10T09:00:00-05:00",
 ];
 pub const TIMES: &[&str] = &["00:00:00", "08:30:00", "12:00:00", "12:00:01", "18:00:00", "23:59:59"];
 pub const WEEKDAY_SETS: &[&[&str]] = &[&["Sun"], &["Mon", "Tue"], &["sunday", "saturday"], &["Funday"], &["Sun", "Funday"], &["Mon", "Wed", "Fri"], &[]];
